@@ -43,7 +43,11 @@ RULE_ADDED = (
               ' '
               'Round 11: attestation-key message / quote extended without re-signing. '
               ' '
-              'Round 12: ui / signer element signed with the untweaked attestation key. ')
+              'Round 12: ui / signer element signed with the untweaked attestation key. '
+              ' '
+              'Round 13: padded / doubled signed messages with an element member (extract, slic'
+              'e, range ...) naming the well-formed part; genuine certificates with such member'
+              's. ')
 RULE = RULE + " " + RULE_ADDED.strip()
 ASSUMPTIONS = [
     "stdout of the commands is parsed by label ('UD value:', 'Hash:', ...)",
@@ -123,7 +127,10 @@ LEDGER_VARIANTS = ["genuine", "genuine-reordered", "key-replaced", "btc-key-repl
                    "odd-paths-hash-in-numeric-order", "forged-extra-targets",
                    "forged-extra-targets", "flip-signature-extra-targets",
                    "ui-key-is-another-of-the-operator-keys",
-                   "app-message-signed-by-the-untweaked-attestation-key"]
+                   "app-message-signed-by-the-untweaked-attestation-key",
+                   "message-padded-and-a-member-naming-the-good-part",
+                   "message-padded-and-a-member-naming-the-good-part",
+                   "genuine-with-members-the-format-does-not-define"]
 
 
 def tail_bytes(rng, n):
@@ -266,6 +273,39 @@ def ledger_case(acc, rng, variant, tmpdir, case):
             e = [x for x in doc["elements"] if x["name"] == "ui"][0]
             e["signature"] = g1.sign(info["attestation"], bytes.fromhex(e["message"]), rng).hex()
             expect_ok = False
+    elif variant == "message-padded-and-a-member-naming-the-good-part":
+        # what the device signed is not a UI / Signer message (bytes before it, after it, a
+        # second message with other values in front) and the element carries a member -
+        # "extract", "slice", "range", "value" ... - telling which part to look at.  The
+        # format defines no such member: the message is the signed one, whole.
+        nm = rng.choice(["ui", "signer", "signer"])
+        m = info["ui_msg"] if nm == "ui" else info["signer_msg"]
+        k_ = rng.choice([1, 5, 9, 32])
+        how = rng.choice(["before", "after", "other-message-before"])
+        if how == "before":
+            m2, sl = rng.randbytes(k_) + m, "%d:" % k_
+        elif how == "after":
+            m2, sl = m + tail_bytes(rng, k_), ":%d" % len(m)
+        else:
+            other = bytearray(m)
+            for i_ in range(len(m) - 40, len(m) - 8):
+                other[i_] ^= 0x55
+            m2, sl = bytes(other) + m, "%d:" % len(m)
+        la.resign(doc, info, nm, m2, rng)
+        e = [x for x in doc["elements"] if x["name"] == nm][0]
+        for member in rng.sample(["extract", "extract", "slice", "range", "value", "offset"],
+                                 rng.randint(1, 2)):
+            e[member] = rng.choice([sl, sl, m.hex()])
+        expect_ok = False
+        # (bytes after a UI message: as in "ui-extended", the documents give that message
+        # no exact length - either verdict)
+        either = (nm == "ui" and how == "after")
+    elif variant == "genuine-with-members-the-format-does-not-define":
+        for e in doc["elements"]:
+            if rng.random() < 0.6:
+                for member in rng.sample(["extract", "slice", "comment", "value", "valid"],
+                                         rng.randint(1, 2)):
+                    e[member] = rng.choice(["10:42", ":", "1:", "-65:", "0:0", ":10", True])
     elif variant == "ui-key-is-another-of-the-operator-keys":
         # the UI vouches for one of the operator's own keys - but not the BTC one
         other = rng.choice([p_ for p_ in keys if p_ != la.BTC_PATH])
